@@ -11,7 +11,7 @@ from __future__ import annotations
 
 import ast
 
-from mlmverif.core import (kwarg, AnalysisError, Ctx, FuncInfo, is_self_attr, norm,
+from mlmverif.core import (kwarg, parent_map, AnalysisError, Ctx, FuncInfo, is_self_attr, norm,
                            unparse, walk_no_nested)
 from mlmverif.sym import (Cases, Obj, RF, SymEval, SymUnsupported,
                           eval_reference, values_equal)
@@ -134,13 +134,26 @@ def fowlkes_mallows_index(TP, TPK, KLIST, KRANGE, PREDCOUNT, TRUECOUNT):
   p = _tpk(TPK, KLIST) / np.minimum(KLIST, PREDCOUNT[:, np.newaxis])
   r = _tpk(TPK, KLIST) / TRUECOUNT[:, np.newaxis]
   return SQRT(p * r)
+def mean_average_precision(TP, TPK, KLIST, KRANGE, PREDCOUNT, TRUECOUNT):
+  # AP@k = sum over the relevant ranks i <= k of precision@i, divided by min(k, number of relevant items)
+  precision_at_rank = TPK[:, KRANGE - 1] / KRANGE
+  relevant = TP > 0
+  ap = np.cumsum(precision_at_rank * relevant, axis=1) / np.minimum(KRANGE, TRUECOUNT[:, np.newaxis])
+  return ap[:, KLIST - 1]
+def mean_reciprocal_rank(TP, TPK, KLIST, KRANGE, PREDCOUNT, TRUECOUNT):
+  first = np.argmax(TPK > 0, axis=1) + 1
+  ranks = np.where(TPK > 0, first[:, np.newaxis], np.inf)
+  return (1.0 / ranks)[:, KLIST - 1]
+def dcg_score(TP, TPK, KLIST, KRANGE, PREDCOUNT, TRUECOUNT):
+  gain = 1.0 / np.log2(KRANGE + 1)
+  return np.cumsum(np.where(TP > 0, gain, 0.0), axis=1)[:, KLIST - 1]
+def ndcg_score(TP, TPK, KLIST, KRANGE, PREDCOUNT, TRUECOUNT):
+  gain = 1.0 / np.log2(KRANGE + 1)
+  dcg = np.cumsum(np.where(TP > 0, gain, 0.0), axis=1)
+  ideal = np.cumsum(np.where(KRANGE > TRUECOUNT[:, np.newaxis], 0.0, gain), axis=1)
+  return dcg[:, KLIST - 1] / ideal[:, KLIST - 1]
 '''
-RET_BY_CALL = {  # rank metrics: not decided by formula, only by helper name
-    'mean_average_precision': '_mean_average_precision',
-    'mean_reciprocal_rank': '_mean_reciprocal_rank',
-    'dcg_score': '_dcg_score',
-    'ndcg_score': '_ndcg_score',
-}
+RET_BY_CALL = {}  # formerly the rank metrics (decided by helper name only); they have reference formulas now
 ROLES = ('TP', 'TPK', 'KLIST', 'KRANGE', 'PREDCOUNT', 'TRUECOUNT')
 
 REF_STATS = '''
@@ -177,7 +190,7 @@ STATS = [
 
 def run(ctx: Ctx):
   st = {}
-  for r in (r1, r2, r3, r4, r5, r6, r7, r9, r10, r12, r14, r15, r16, r17, r18):
+  for r in (r1, r2, r3, r4, r5, r6, r7, r9, r10, r12, r14, r15, r16, r17, r18, r19):
     ctx.guard(r, st)
   from mlmverif.props import c11
   from mlmverif.props._agg import model as aggmodel
@@ -533,6 +546,54 @@ def r18(ctx: Ctx, st):
                ' metric is then an error or a number outside its range. Convert one operand to floating point first'
                ' (np.asarray(..., dtype=float))', node=e)
   ctx.floor(rule, 25, n)
+
+
+def r19(ctx: Ctx, st):
+  rule = 'R-C07-19'
+  ctx.rule(rule, '"text-frequency ... with the documented conventions": a text aggregate whose docstring says the text is'
+           ' "cleaned by removing non-alphabetic characters" REMOVES them — the `re.sub(<negated character class>, repl,'
+           ' text)` of its accumulation method has the empty string as replacement (a space would split "don\'t" or'
+           ' "e-mail" into several words and change every n-gram count), the cleaned text is what is split into words,'
+           ' and when the docstring promises a case-insensitive / lowercase treatment `.lower()` is applied before the split')
+  repo = ctx.repo
+  mi = repo.module('aggregates.text')
+  n = 0
+  for ci in mi.classes.values():
+    doc = ' '.join((ast.get_docstring(ci.node) or '').split())
+    if 'removing non-alphabetic' not in doc:
+      continue
+    fi = ci.methods.get('add')
+    if fi is None:
+      raise AnalysisError(f'{ci.name}: documented cleaning but no add()')
+    subs = [c for c in ast.walk(fi.node) if isinstance(c, ast.Call) and unparse(c.func) == 're.sub' and len(c.args) >= 3
+            and isinstance(c.args[0], ast.Constant) and isinstance(c.args[0].value, str) and '[^' in c.args[0].value]
+    if not subs:
+      raise AnalysisError(f'{ci.name}.add: the documented cleaning step (re.sub over a negated character class) was not found')
+    for c in subs:
+      n += 1
+      what = f'{ci.name}.add: non-alphabetic characters are removed, not replaced'
+      repl = c.args[1]
+      if not (isinstance(repl, ast.Constant) and repl.value == ''):
+        ctx.fail(rule, fi, what,
+                 f'`{unparse(c)}` replaces the characters outside {c.args[0].value!r} by {unparse(repl)} — the docstring of'
+                 f' {ci.name} says they are REMOVED. With a non-empty replacement a token such as "don\'t", "e-mail" or'
+                 ' "covid19x" is split into several words: the n-gram inventory, counts, frequencies and the top-k ranking'
+                 ' all change', node=c)
+        continue
+      # the cleaned text flows into .split() (through .lower() when promised)
+      pm = parent_map(fi.node)
+      chain, cur = [], c
+      while isinstance(pm.get(cur), ast.Attribute) and isinstance(pm.get(pm[cur]), ast.Call):
+        chain.append(pm[cur].attr)
+        cur = pm[pm[cur]]
+      need_lower = 'lowercase' in doc or 'case-insensitive' in doc
+      if 'split' not in chain or (need_lower and ('lower' not in chain or chain.index('lower') > chain.index('split'))):
+        ctx.fail(rule, fi, what,
+                 f'the cleaned text is processed by .{".".join(chain) or "<nothing>"}(): the documented pipeline is'
+                 ' clean -> lowercase -> split into words', node=c)
+      else:
+        ctx.ok(rule, fi, what, c)
+  ctx.floor(rule, 1, n)
 
 
 def _c11_shared(sub, m):
@@ -1326,6 +1387,15 @@ _C = 'aggregates/classification.py'
 _T = 'aggregates/retrieval.py'
 _MC = 'metrics/classification.py'
 VARIANTS = [
+    B('ngram-cleaning-replaces-by-space', 'aggregates/text.py',
+      "words = re.sub(r'[^a-zA-Z ]+', '', text).lower().split()", "words = re.sub(r'[^a-zA-Z ]+', ' ', text).lower().split()", 'R-C07-19'),
+    B('ngram-cleaning-keeps-case', 'aggregates/text.py',
+      "words = re.sub(r'[^a-zA-Z ]+', '', text).lower().split()", "words = re.sub(r'[^a-zA-Z ]+', '', text).split()", 'R-C07-19'),
+    B('map-precision-from-per-rank-hits', 'aggregates/retrieval.py',
+      '  precision_all_k = tp_at_topks[:, ks - 1] / ks', '  precision_all_k = tp[:, ks - 1] / ks', 'R-C07-4'),
+    OK('map-factored-differently', 'aggregates/retrieval.py',
+       '  result = np.cumsum(precision_all_k * relevance, axis=1) / size_true\n  result = result[:, k_list - 1]\n  return result',
+       '  weighted = relevance * precision_all_k\n  return (np.cumsum(weighted, axis=1) / size_true)[:, k_list - 1]'),
     B('revert-mcc-integer-product', 'aggregates/classification.py',
       '      np.asarray(cm.tp + cm.fp, dtype=types.DefaultDType)\n      * (cm.tp + cm.fn)', '      (cm.tp + cm.fp)\n      * (cm.tp + cm.fn)', 'R-C07-18'),
     OK('mcc-denominator-as-two-roots', 'aggregates/classification.py',
